@@ -43,6 +43,21 @@ class Ctx:
     pass
 
 
+def normalise_helpers(facts, vocab):
+    """splice helpers outside the reference vocabulary into their callers; the extracted core of a reference function is
+    first kept as a call, read as a call of that function where that is provably the same (fold_calls), and spliced last"""
+    from .fold_calls import core_candidates, fold_core_calls
+    if vocab is None:
+        return [], []
+    cores = core_candidates(facts, vocab)
+    if not cores:
+        return inline_new_helpers(facts, vocab), []
+    log = inline_new_helpers(facts, set(vocab) | set(cores))
+    folded = fold_core_calls(facts, vocab)
+    log += inline_new_helpers(facts, vocab)
+    return log, folded
+
+
 def main():
     prop, tier, work = sys.argv[1], sys.argv[2], sys.argv[3]
     replay = sys.argv[4] if len(sys.argv) > 4 and sys.argv[4] else None
@@ -60,11 +75,11 @@ def main():
             lower_int_cmp(fx)
             desugar_combinators(fx)
     vocab = load_vocabulary(VERIF)
-    ctx.inlined = inline_new_helpers(ctx.facts, vocab)
+    ctx.inlined, ctx.folded = normalise_helpers(ctx.facts, vocab)
     ctx.facts.spliced_helpers = {c_ for _p, c_ in ctx.inlined}
     ctx.facts.consumed_closures = consumed_closures(ctx.facts, ctx.inlined)
     if ctx.facts_release is not None:
-        inline_new_helpers(ctx.facts_release, vocab)
+        normalise_helpers(ctx.facts_release, vocab)
     run = Run(prop, tier, LEVELS.get(prop, "other"))
     ctx.run = run
     try:
@@ -77,6 +92,8 @@ def main():
                  "adts": len(ctx.facts.adts), "crate": ctx.facts.crate, "build": ctx.facts.opts}
     if ctx.facts.aliases:
         run.note("private items recognised as renamed (same module, signature / value as a reference item that is gone): %s" % sorted(ctx.facts.aliases.items()))
+    if getattr(ctx, "folded", None):
+        run.note("calls of the extracted core of a reference function read as calls of that function (arguments and guards checked): %s" % sorted(set(ctx.folded)))
     if ctx.inlined:
         run.note("functions outside the reference vocabulary spliced into their callers before analysis: %s" % sorted({c for _p, c in ctx.inlined}))
     run.floor("UNITS", "MIR bodies analysed", ctx.facts.n_bodies(), FLOOR_BODIES)
